@@ -24,6 +24,7 @@ func checkC02(c *Ctx) {
 		"K4 order: the option encoder ranges over the option slice; the decoder appends each parsed option (part of the Options rows)")
 	r.NotDecided = append(r.NotDecided, "value equality beyond slot/field/transform agreement (behaviour of net, time, append)", "label codec internals (C19)")
 	e1ParserTables(c, "C02-K1")
+	labelNameCap(c, "C02-K6")
 	e1CheckConstants(c, "C02-K5", []string{"dhcpv6.", "iana.StatusCode", "iana.Arch", "iana.HWType", "iana.EnterpriseID"}, 200)
 	e2CheckLayouts(c, "C02-K2", isV6Codec, 90)
 	r.Assume("spec/layouts.json rows are my reading of the cited RFC sections; the width skeletons were written by hand from the RFC text (tools/genlayouts.py) and the field/transform strings reviewed against the code once")
